@@ -75,7 +75,7 @@ def same_del(a, b):
 
 
 def check_case(case):
-    from cobra.flux_analysis import (double_reaction_deletion, find_blocked_reactions, find_essential_genes, find_essential_reactions,
+    from cobra.flux_analysis import (double_gene_deletion, double_reaction_deletion, find_blocked_reactions, find_essential_genes, find_essential_reactions,
                                      single_gene_deletion, single_reaction_deletion)
     W.install()
     spec = case["spec"]
@@ -107,6 +107,8 @@ def check_case(case):
                     res = deletion_map(single_reaction_deletion(m, reaction_list=items, processes=procs))
                 elif kind == "double_reaction":
                     res = deletion_map(double_reaction_deletion(m, reaction_list1=items, processes=procs))
+                elif kind == "double_gene":
+                    res = deletion_map(double_gene_deletion(m, gene_list1=items, processes=procs))
                 elif kind == "blocked":
                     res = {"set": sorted(find_blocked_reactions(m, reaction_list=items, processes=procs))}
                 elif kind == "essential_genes":
@@ -143,6 +145,16 @@ def check_case(case):
                             fails.append(msg)
                         break
             # every item alone
+            if kind in ("double_gene", "double_reaction") and not fails:
+                # pairs asked alone
+                keys = [k for k in sorted(r0) if "," in k][:case.get("alone", 3)]
+                for k in keys:
+                    a, b = k.split(",")
+                    f = double_gene_deletion if kind == "double_gene" else double_reaction_deletion
+                    kw = {"gene_list1": [a], "gene_list2": [b]} if kind == "double_gene" else {"reaction_list1": [a], "reaction_list2": [b]}
+                    one = deletion_map(f(m, processes=1, **kw))
+                    if k in one and not same_del(one[k], r0[k]):
+                        fails.append(f"{kind}: the pair {k} asked alone gives {one[k]}, in the batch {r0[k]}")
             if kind in ("fva", "single_gene", "single_reaction") and not fails:
                 for k in case["items"][:case.get("alone", 3)]:
                     if kind == "fva":
@@ -175,12 +187,24 @@ def check_sampling_case(case):
         if m.slim_optimize() != m.slim_optimize() or m.solver.status != "optimal":
             return None, "not-feasible"
         frames = []
+        second = []
         for rep in range(2):
+            # the global numpy generator of the calling process is in a different state each time (as in two separate interpreters): a
+            # reproducible sampler does not depend on it
+            np.random.seed(1000 + 7919 * rep)
             try:
                 s = OptGPSampler(m, processes=case["processes"], thinning=case["thinning"], seed=case["sampler_seed"])
                 df = s.sample(case["n"])
             except Exception as e:
                 return None, f"sampler-failed-{type(e).__name__}"
+            try:
+                df2 = s.sample(case["n"])          # a second batch from the same sampler
+            except Exception as e:
+                return None, f"sampler-failed-{type(e).__name__}"
+            second.append(df2)
+            bad2 = [v for v in s.validate(df2.values) if v != "v"]
+            if bad2:
+                fails.append(f"{len(bad2)} samples of a second batch are not valid: {sorted(set(bad2))}")
             frames.append(df)
             if len(df) != case["rows_expected"]:
                 fails.append(f"sample({case['n']}) with {case['processes']} processes returned {len(df)} rows, the model of the rounding says {case['rows_expected']}")
@@ -192,6 +216,8 @@ def check_sampling_case(case):
                 fails.append(f"{len(bad)} of {len(val)} parallel samples are not valid: {sorted(set(bad))}")
         if len(frames) == 2 and frames[0].shape == frames[1].shape and not np.allclose(frames[0].values, frames[1].values, atol=1e-9, equal_nan=True):
             fails.append(f"same seed {case['sampler_seed']} and {case['processes']} processes gave different samples")
+        if len(second) == 2 and second[0].shape == second[1].shape and not np.allclose(second[0].values, second[1].values, atol=1e-9, equal_nan=True):
+            fails.append(f"same seed {case['sampler_seed']} and {case['processes']} processes: the second batch differs between two runs")
     return fails, "ran"
 
 
@@ -203,10 +229,11 @@ def gen_case(rng, tier):
         p = rng.choice([2, 3, 4])
         return {"kind": "sampling", "spec": spec, "processes": p, "n": rng.choice([3, 5, 8, 9, 12]), "thinning": rng.choice([1, 3]),
                 "sampler_seed": rng.randint(1, 10 ** 6)}
-    kind = rng.choice(["fva", "fva", "fva", "single_gene", "single_reaction", "double_reaction", "blocked", "essential_genes", "essential_reactions"])
-    if kind in ("single_gene",) and not gids:
+    kind = rng.choice(["fva", "fva", "fva", "single_gene", "single_reaction", "double_reaction", "double_gene", "double_gene", "blocked",
+                       "essential_genes", "essential_reactions"])
+    if kind in ("single_gene", "double_gene") and len(gids) < 2:
         kind = "single_reaction"
-    items = {"fva": rids, "single_reaction": rids, "double_reaction": rids, "blocked": rids, "single_gene": gids}.get(kind, rids)
+    items = {"fva": rids, "single_reaction": rids, "double_reaction": rids, "blocked": rids, "single_gene": gids, "double_gene": gids}.get(kind, rids)
     items = rng.sample(items, rng.randint(max(1, len(items) - 2), len(items)))
     maxp = 4 if tier == "quick" else 8
     procs = [1] + rng.sample(range(2, maxp + 1), 2)
